@@ -21,8 +21,8 @@ def c12_relevant(kind, rec, case):
 
 def c01_relevant(kind, rec, case):
     # every solution handed out by any entry point
-    if kind == "fix":
-        return True  # exact propagation correspondence up to and including the solution state
+    if kind in ("fix", "asg"):
+        return True  # exact propagation / domain-store correspondence
     return kind in ("sol", "asol", "partial") or (kind in ("subset", "solset") and False)
 
 
@@ -48,6 +48,7 @@ HOOK_COMMITS = [
     "fa850e7b8c519544f58724ad57983943c882cc39",
     "3772dc97559afc4ce1e7fc13fab68ef5816cfbdb",
     "8f54ee07b53e5748d855503a4dcaf4981f0f9852",
+    "570f12b86acbe4996e24f24a3127040cdfa7689a",
 ]
 
 LEVEL_NOTE_COMMON = (
@@ -76,8 +77,8 @@ def panic_or(kinds_set, scen_prefixes):
 def c01_relevant(kind, rec, case):
     if kind == "panic" and "Expected_retrieved_integer_variable_from_solution_to_be_assigned" in rec:
         return True  # a partial assignment was handed out as a solution
-    if kind == "fix":
-        return True  # exact propagation correspondence up to and including the solution state
+    if kind in ("fix", "asg"):
+        return True  # exact propagation / domain-store correspondence
     return kind in ("sol", "asol", "partial")
 
 
@@ -127,9 +128,10 @@ PROPS = {
         "streams": [
             {"name": "answers", "mode": "answers", "quick": 400, "thorough": 12000, "args": ["--mix", ALL_SCEN]},
             {"name": "fix", "mode": "fix", "quick": 1200, "thorough": 30000, "args": []},
+            {"name": "store", "mode": "asg", "quick": 500, "thorough": 12000, "args": []},
         ],
         "relevant": c01_relevant,
-        "lean_modules": ["Pumpkin.Model.Propagation", "Pumpkin.Model.PropagationChecks"],
+        "lean_modules": ["Pumpkin.Model.Propagation", "Pumpkin.Model.PropagationChecks", "Pumpkin.Model.AssignmentsEvents"],
         "level_text": "Proof: fixed_fixpoint_is_solution — over the propagator models of Model/Propagation.lean, a state in which every variable is fixed and whose propagation fixpoint reports no conflict satisfies the WHOLE model (pass_checks: at a full assignment every modelled propagator decides its constraint — LinearLeq, LinearNe, IntAbs, Maximum, IntTimes, Division, Element, clauses, time-table cumulative, reified wrapper; compile_bwd / compile_fwd: the decomposition into propagators has exactly the constraint's meaning), for every model of the modelled kinds; solution_is_fixed_fixpoint is the converse. Tied exactly by the `fix` records (the state at every decision point of real solves, the last one of a satisfiable solve being the solution state, equals the model's fixpoint). Lean theorems state that an accepted solution lies in the declared domains and satisfies every constraint under the Spec semantics (views, half/full reification), and that acceptance = membership in the verified oracle `solutions`. Tie to code: every solution handed out by satisfy / iterator / assumptions / optimise (result and callbacks) of the real solver on generated models is judged by that verified acceptor.",
         "level_note": LEVEL_NOTE_COMMON + "Not modelled line by line: search loop, 2-watch scheme, time-table bookkeeping (covered only through the answers they produce).",
         "assumptions": [
